@@ -188,6 +188,7 @@ func (in *Exec) evalModel(t *Term) uint64 {
 // query asks the solver whether pc AND extra is satisfiable (extra may be nil). With adopt, a Sat answer's
 // model becomes the cached model of the path (it then satisfies pc AND extra).
 func (in *Exec) query(extra *Term, adopt bool) SatResult {
+	in.checkDeadline()
 	s := in.W.S
 	if in.W.X.Cfg.Trace && in.curFn != nil {
 		in.W.qsite[in.curFn.String()]++
